@@ -1,7 +1,9 @@
 (* LedgerKll.v — sizes-only model of kll_sketch's hand-managed items_ buffer (kll_sketch_impl.hpp,
-   kll_helper_impl.hpp) with its effect log.  No item values: the buffer discipline of KLL (which slots are
-   constructed, which blocks are allocated with which size) depends on the level boundaries only, not on
-   the items or on the random offsets.  Definitions only. *)
+   kll_helper_impl.hpp) with its effect log.  No item values: which slots of items_ are constructed and with
+   which sizes blocks are allocated depends on the level populations only, not on the items or on the random
+   offsets.  The levels_ array is represented by [k_free] = levels_[0] and the list of level populations
+   [k_pops] (levels_[h+1] - levels_[h]); the constructed range of items_ is [k_free, k_free + sum k_pops).
+   Definitions only. *)
 From Coq Require Import ZArith NArith List Bool Lia.
 From DS Require Import LedgerCore.
 Import ListNotations.
@@ -10,17 +12,16 @@ Local Open Scope N_scope.
 Record kll := {
   k_k : N;                 (* k_ *)
   k_n : N;                 (* n_ *)
-  k_lv : list N;           (* levels_[0 .. num_levels_]  (num_levels_ = length - 1) *)
+  k_free : N;              (* levels_[0]: free slots at the bottom of items_ *)
+  k_pops : list N;         (* population of level 0 .. num_levels_-1 *)
   k_cap : N;               (* items_size_ *)
   k_blk : option N;        (* items_ (None = nullptr after being moved from) *)
   k_nxt : N                (* next unused local block id *)
 }.
 
-Definition k_nl (s : kll) : N := N.of_nat (length (k_lv s)) - 1.
-Definition lvn (l : list N) (i : N) : N := nth (N.to_nat i) l 0.
-Definition lv0 (s : kll) : N := lvn (k_lv s) 0.
-Definition lvN (s : kll) : N := last (k_lv s) 0.
-Definition k_retained (s : kll) : N := lvN s - lv0 s.
+Definition sumN (l : list N) : N := fold_right N.add 0 l.
+Definition k_nl (s : kll) : N := N.of_nat (length (k_pops s)).
+Definition k_retained (s : kll) : N := sumN (k_pops s).
 (* items outside the buffer: min_item_ and max_item_ (optional<T>) once the sketch is non-empty *)
 Definition k_extras (s : kll) : N := if k_n s =? 0 then 0 else 2.
 
@@ -37,41 +38,46 @@ Fixpoint sum_caps (k nl : N) (h : nat) : N :=      (* capacities of levels 0 .. 
   match h with O => 0 | S h' => sum_caps k nl h' + level_capacity k nl (N.of_nat h') end.
 Definition total_capacity (k nl : N) : N := sum_caps k nl (N.to_nat nl).
 
-Definition new_kll (k : N) : kll * list eff :=
-  ({| k_k := k; k_n := 0; k_lv := [k; k]; k_cap := k; k_blk := Some 0; k_nxt := 1 |}, [Alloc true 0 k]).
+Definition mk (s : kll) (n free : N) (pops : list N) (cap : N) (blk : option N) (nxt : N) : kll :=
+  {| k_k := k_k s; k_n := n; k_free := free; k_pops := pops; k_cap := cap; k_blk := blk; k_nxt := nxt |}.
 
-(* find_level_to_compact: first level whose population reached its capacity *)
-Fixpoint find_level (k nl : N) (lv : list N) (h : N) : option N :=
-  match lv with
-  | a :: ((b :: _) as t) => if level_capacity k nl h <=? b - a then Some h else find_level k nl t (h + 1)
-  | _ => None                                 (* "capacity calculation error" *)
+Definition new_kll (k : N) : kll * list eff :=
+  ({| k_k := k; k_n := 0; k_free := k; k_pops := [0]; k_cap := k; k_blk := Some 0; k_nxt := 1 |}, [Alloc true 0 k]).
+
+(* find_level_to_compact: first level whose population reached its capacity; also returns the populations below it *)
+Fixpoint find_level (k nl : N) (pops : list N) (h : N) : option N :=
+  match pops with
+  | [] => None                                 (* "capacity calculation error" *)
+  | p :: t => if level_capacity k nl h <=? p then Some h else find_level k nl t (h + 1)
   end.
 
-Fixpoint set_nth {A} (i : nat) (x : A) (l : list A) : list A :=
-  match l with [] => [] | y :: t => match i with O => x :: t | S i' => y :: set_nth i' x t end end.
-Definition setn (l : list N) (i x : N) : list N := set_nth (N.to_nat i) x l.
-(* add d to entries 0 .. c-1 *)
-Fixpoint add_first (c : nat) (d : N) (l : list N) : list N :=
-  match c, l with S c', a :: t => (a + d) :: add_first c' d t | _, _ => l end.
+(* compaction of level [h] on populations: the level keeps 0 or 1 item, half of the rest is promoted *)
+Fixpoint compact_at (h : nat) (pops : list N) : list N * N :=
+  match h, pops with
+  | O, p :: t =>
+      let half := (if N.odd p then p - 1 else p) / 2 in
+      ((if N.odd p then 1 else 0) :: match t with [] => [half] | q :: t' => (q + half) :: t' end, half)
+  | S h', p :: t => let '(t', half) := compact_at h' t in (p :: t', half)
+  | _, [] => ([], 0)
+  end.
 
 (* add_empty_top_level_to_completely_full_sketch: [None] = one of its logic_error checks *)
 Definition add_empty_top (s : kll) : option (kll * list eff) :=
   match k_blk s with
   | None => None
   | Some b =>
-    let cur := lvN s in
-    if negb (lv0 s =? 0) || negb (k_cap s =? cur) then None else
+    let cur := k_free s + k_retained s in                       (* levels_[num_levels_] *)
+    if negb (k_free s =? 0) || negb (k_cap s =? cur) then None else
     let delta := level_capacity (k_k s) (k_nl s + 1) 0 in
     let new_cap := cur + delta in
     let b' := k_nxt s in
-    let lv' := map (fun x => x + delta) (k_lv s) ++ [new_cap] in
-    Some ({| k_k := k_k s; k_n := k_n s; k_lv := lv'; k_cap := new_cap; k_blk := Some b'; k_nxt := b' + 1 |},
+    Some (mk s (k_n s) (k_free s + delta) (k_pops s ++ [0]) new_cap (Some b') (b' + 1),
           [Alloc true b' new_cap; MovD b 0 b' delta cur; Dealloc b (k_cap s)])
   end.
 
 (* compress_while_updating *)
 Definition compress (s : kll) : option (kll * list eff) :=
-  match find_level (k_k s) (k_nl s) (k_lv s) 0 with
+  match find_level (k_k s) (k_nl s) (k_pops s) 0 with
   | None => None
   | Some level =>
     match (if level =? k_nl s - 1 then add_empty_top s else Some (s, [])) with
@@ -80,34 +86,24 @@ Definition compress (s : kll) : option (kll * list eff) :=
       match k_blk s1 with
       | None => None
       | Some b =>
-        let lv := k_lv s1 in
-        let raw_beg := lvn lv level in
-        let raw_lim := lvn lv (level + 1) in
-        let raw_pop := raw_lim - raw_beg in
-        let odd := N.odd raw_pop in
-        let adj_pop := if odd then raw_pop - 1 else raw_pop in
-        let half := adj_pop / 2 in
-        let destroy_beg := lvn lv 0 in
-        let top := raw_lim - half in
-        let lv1 := setn lv (level + 1) top in
-        let lv2 := setn lv1 level (if odd then top - 1 else top) in
-        if negb (lvn lv2 level =? raw_beg + half) then None            (* "compaction error" *)
-        else
-          let lv3 := add_first (N.to_nat level) half lv2 in
-          Some ({| k_k := k_k s1; k_n := k_n s1; k_lv := lv3; k_cap := k_cap s1; k_blk := k_blk s1; k_nxt := k_nxt s1 |},
-                e1 ++ [Dest b destroy_beg half])
+        let destroy_beg := k_free s1 in
+        let '(pops', half) := compact_at (N.to_nat level) (k_pops s1) in
+        Some (mk s1 (k_n s1) (k_free s1 + half) pops' (k_cap s1) (k_blk s1) (k_nxt s1),
+              e1 ++ [Dest b destroy_beg half])
       end
     end
   end.
 
+Definition bump0 (pops : list N) : list N := match pops with [] => [1] | p :: t => (p + 1) :: t end.
+
 (* internal_update: returns the slot index the caller constructs into *)
 Definition internal_update (s : kll) : option (kll * list eff * N) :=
-  match (if lv0 s =? 0 then compress s else Some (s, [])) with
+  match (if k_free s =? 0 then compress s else Some (s, [])) with
   | None => None
   | Some (s1, e1) =>
-    let idx := lv0 s1 - 1 in
-    Some ({| k_k := k_k s1; k_n := k_n s1 + 1; k_lv := setn (k_lv s1) 0 idx; k_cap := k_cap s1; k_blk := k_blk s1; k_nxt := k_nxt s1 |},
-          e1, idx)
+    if k_free s1 =? 0 then None else                 (* cannot happen (LedgerProofs): a compaction frees >= 4 slots *)
+    let idx := k_free s1 - 1 in
+    Some (mk s1 (k_n s1 + 1) idx (bump0 (k_pops s1)) (k_cap s1) (k_blk s1) (k_nxt s1), e1, idx)
   end.
 
 (* update(item): [None] = a logic_error escaped before anything was constructed (state unchanged) *)
@@ -127,26 +123,22 @@ Definition kll_copy (o : kll) : option (kll * list eff) :=
   match k_blk o with
   | None => None
   | Some ob =>
-    Some ({| k_k := k_k o; k_n := k_n o; k_lv := k_lv o; k_cap := k_cap o; k_blk := Some 0; k_nxt := 1 |},
-          [Alloc true 0 (k_cap o); FromX ob (lv0 o) 0 (lv0 o) (lvN o - lv0 o)])
+    Some (mk o (k_n o) (k_free o) (k_pops o) (k_cap o) (Some 0) 1,
+          [Alloc true 0 (k_cap o); FromX ob (k_free o) 0 (k_free o) (k_retained o)])
   end.
 
 (* destructor *)
 Definition kll_destroy (s : kll) : list eff :=
   match k_blk s with
   | None => []
-  | Some b => [Dest b (lv0 s) (lvN s - lv0 s); Dealloc b (k_cap s)]
+  | Some b => [Dest b (k_free s) (k_retained s); Dealloc b (k_cap s)]
   end.
 
-(* the state a move constructor leaves in its source: items_ = nullptr (levels_ moved away; min/max moved-from) *)
-Definition kll_moved_from (s : kll) : kll :=
-  {| k_k := k_k s; k_n := k_n s; k_lv := k_lv s; k_cap := k_cap s; k_blk := None; k_nxt := k_nxt s |}.
+(* the state a move constructor leaves in its source: items_ = nullptr *)
+Definition kll_moved_from (s : kll) : kll := mk s (k_n s) (k_free s) (k_pops s) (k_cap s) None (k_nxt s).
 
 (* ---- merge ---- *)
-Definition level_size (lv : list N) (nl l : N) : N := if nl <=? l then 0 else lvn lv (l + 1) - lvn lv l.
-
-Definition floor_log2_frac (n : N) : N := if n =? 0 then 0 else N.log2 n.     (* floor_of_log2_of_fraction(n, 1) *)
-Definition ub_on_num_levels (n : N) : N := if n =? 0 then 1 else 1 + floor_log2_frac n.
+Definition ub_on_num_levels (n : N) : N := if n =? 0 then 1 else 1 + N.log2 n.
 
 (* the level-0 loop of merge: one internal_update + placement-new per level-0 item of the other sketch *)
 Fixpoint merge_level0 (cnt : nat) (ob osrc : N) (s : kll) (acc : list eff) : (kll * list eff * bool) :=
@@ -163,81 +155,75 @@ Fixpoint merge_level0 (cnt : nat) (ob osrc : N) (s : kll) (acc : list eff) : (kl
     end
   end.
 
-(* populate_work_arrays for levels 1 .. prov-1: returns worklevels (reversed accumulation) and effects *)
-Fixpoint populate (cnt : nat) (lvl : N) (b wb ob : N) (s o : kll) (wl : N) (acc_wl : list N) (acc : list eff)
-  : list N * list eff :=
-  match cnt with
-  | O => (acc_wl, acc)
-  | S c =>
-    let self_pop := level_size (k_lv s) (k_nl s) lvl in
-    let other_pop := level_size (k_lv o) (k_nl o) lvl in
-    let e := (if 0 <? self_pop then [MovD b (lvn (k_lv s) lvl) wb wl self_pop] else []) ++
-             (if 0 <? other_pop then [FromX ob (lvn (k_lv o) lvl) wb (wl + self_pop) other_pop] else []) in
-    populate c (lvl + 1) b wb ob s o (wl + self_pop + other_pop) (acc_wl ++ [wl + self_pop + other_pop]) (acc ++ e)
+(* populate_work_arrays for levels >= 1 over the pairs (population of this sketch, population of the other sketch);
+   [si]/[oi] = slot positions in the two items_ buffers, [wl] = position in the work buffer.
+   (Where both levels are non-empty the code interleaves the two sources by item order; the log lists this sketch's
+   items first — same slots, same counts.) *)
+Definition pad (l : list N) (n : nat) : list N := l ++ repeat 0 (n - length l).
+Definition level_pairs (sp op : list N) : list (N * N) :=
+  let n := Nat.max (length sp) (length op) in combine (pad sp n) (pad op n).
+
+Fixpoint populate (ps : list (N * N)) (b wb ob : N) (si oi wl : N) : list eff :=
+  match ps with
+  | [] => []
+  | (self_pop, other_pop) :: t =>
+    (if 0 <? self_pop then [MovD b si wb wl self_pop] else []) ++
+    (if 0 <? other_pop then [FromX ob oi wb (wl + self_pop) other_pop] else []) ++
+    populate t b wb ob (si + self_pop) (oi + other_pop) (wl + self_pop + other_pop)
   end.
 
-(* general_compress on sizes: state of the loop *)
-Record gcst := { g_nl : N; g_cnt : N; g_tgt : N; g_in : list N; g_out : list N }.
-
-Fixpoint gc_loop (fuel : nat) (k : N) (cur : N) (g : gcst) : gcst :=
-  match fuel with
-  | O => g
-  | S f =>
-    let inl := if cur =? g_nl g - 1 then setn (g_in g) (cur + 2) (lvn (g_in g) (cur + 1)) else g_in g in
-    let raw_beg := lvn inl cur in
-    let raw_lim := lvn inl (cur + 1) in
-    let raw_pop := raw_lim - raw_beg in
-    let g1 :=
-      if (g_cnt g <? g_tgt g) || (raw_pop <? level_capacity k (g_nl g) cur) then
-        {| g_nl := g_nl g; g_cnt := g_cnt g; g_tgt := g_tgt g; g_in := inl;
-           g_out := setn (g_out g) (cur + 1) (lvn (g_out g) cur + raw_pop) |}
-      else
-        let odd := N.odd raw_pop in
-        let adj_pop := if odd then raw_pop - 1 else raw_pop in
-        let half := adj_pop / 2 in
-        let out' := setn (g_out g) (cur + 1) (lvn (g_out g) cur + (if odd then 1 else 0)) in
-        let in' := setn inl (cur + 1) (lvn inl (cur + 1) - half) in
-        let top := cur =? g_nl g - 1 in
-        {| g_nl := if top then g_nl g + 1 else g_nl g;
-           g_cnt := g_cnt g - half;
-           g_tgt := if top then g_tgt g + level_capacity k (g_nl g + 1) 0 else g_tgt g;
-           g_in := in'; g_out := out' |} in
-    if cur =? g_nl g1 - 1 then g1 else gc_loop f k (cur + 1) g1
-  end.
-
+(* general_compress on populations.  [ins] = populations of levels cur, cur+1, ... still to process *)
 Record gcres := { r_nl : N; r_cap : N; r_items : N; r_out : list N }.
 
-Definition general_compress (k nl_in : N) (inl : list N) (slots : nat) : gcres :=
-  let g0 := {| g_nl := nl_in; g_cnt := lvn inl nl_in - lvn inl 0; g_tgt := total_capacity k nl_in;
-               g_in := inl ++ repeat 0 slots; g_out := repeat 0 (length inl + slots) |} in
-  let g := gc_loop (length inl + slots) k 0 g0 in
-  {| r_nl := g_nl g; r_cap := g_tgt g; r_items := g_cnt g; r_out := g_out g |}.
+Fixpoint gc_loop (fuel : nat) (k cur nl cnt tgt : N) (ins out : list N) : gcres :=
+  match fuel with
+  | O => {| r_nl := nl; r_cap := tgt; r_items := cnt; r_out := out |}
+  | S f =>
+    let p := hd 0 ins in
+    let rest := tl ins in
+    if (cnt <? tgt) || (p <? level_capacity k nl cur) then
+      if cur =? nl - 1 then {| r_nl := nl; r_cap := tgt; r_items := cnt; r_out := out ++ [p] |}
+      else gc_loop f k (cur + 1) nl cnt tgt rest (out ++ [p])
+    else
+      let odd := N.odd p in
+      let half := (if odd then p - 1 else p) / 2 in
+      let rest' := (hd 0 rest + half) :: tl rest in
+      let top := cur =? nl - 1 in
+      let nl' := if top then nl + 1 else nl in
+      let tgt' := if top then tgt + level_capacity k (nl + 1) 0 else tgt in
+      let out' := out ++ [if odd then 1 else 0] in
+      if cur =? nl' - 1 then {| r_nl := nl'; r_cap := tgt'; r_items := cnt - half; r_out := out' |}
+      else gc_loop f k (cur + 1) nl' (cnt - half) tgt' rest' out'
+  end.
 
-(* merge_higher_levels.  Outcome [inr tt] = one of the conditions the code relies on without being able to
-   recover (general_compress "inconsistent state", "merge error", more items than capacity) — see LedgerProofs. *)
+Definition general_compress (k : N) (ins : list N) (fuel : nat) : gcres :=
+  let nl := N.of_nat (length ins) in
+  gc_loop fuel k 0 nl (sumN ins) (total_capacity k nl) ins [].
+
+(* merge_higher_levels.  [None] = a condition the code relies on without being able to recover from its failure
+   ("inconsistent state", "merge error", more items than capacity): see LedgerProofs (outcome Abort). *)
 Definition merge_higher (s o : kll) (final_n : N) : option (kll * list eff) :=
   match k_blk s, k_blk o with
   | Some b, Some ob =>
-    let tmp := k_retained s + (if k_nl o =? 1 then 0 else lvN o - lvn (k_lv o) 1) in
+    let tmp := k_retained s + sumN (tl (k_pops o)) in
     let wb := k_nxt s in
     let ub := ub_on_num_levels final_n in
-    let prov := N.max (k_nl s) (k_nl o) in
-    let wl1 := level_size (k_lv s) (k_nl s) 0 in
-    let e0 := [Alloc true wb tmp] ++ (if 0 <? wl1 then [MovD b (lv0 s) wb 0 wl1] else []) in
-    let '(wls, e1) := populate (N.to_nat prov - 1) 1 b wb ob s o wl1 [0; wl1] e0 in
-    let r := general_compress (k_k s) prov wls (N.to_nat ub + 2 - length wls) in
-    if negb (lvn (r_out r) (r_nl r) - lvn (r_out r) 0 =? r_items r) || (ub <? r_nl r) || (r_cap r <? r_items r)
-       || (tmp <? r_items r) then None
+    let p0 := hd 0 (k_pops s) in
+    let e0 := [Alloc true wb tmp] ++ (if 0 <? p0 then [MovD b (k_free s) wb 0 p0] else []) in
+    let ps := level_pairs (tl (k_pops s)) (tl (k_pops o)) in
+    let w := map (fun p => fst p + snd p) ps in
+    let e1 := populate ps b wb ob (k_free s + p0) (k_free o + hd 0 (k_pops o)) p0 in
+    let r := general_compress (k_k s) (p0 :: w) (N.to_nat ub + 2) in
+    if negb (sumN (r_out r) =? r_items r) || negb (N.of_nat (length (r_out r)) =? r_nl r) || (ub <? r_nl r)
+       || (r_cap r <? r_items r) || (tmp <? r_items r) || negb (sumN (p0 :: w) =? tmp) then None
     else
       let e2 := [Dest wb (r_items r) (tmp - r_items r)] in
       let realloc := negb (r_cap r =? k_cap s) in
       let b' := if realloc then wb + 1 else b in
       let e3 := if realloc then [Dealloc b (k_cap s); Alloc true b' (r_cap r)] else [] in
       let free := r_cap r - r_items r in
-      let e4 := [MovD wb (lvn (r_out r) 0) b' free (r_items r); Dealloc wb tmp] in
-      let lv' := map (fun x => x + free - lvn (r_out r) 0) (firstn (N.to_nat (r_nl r) + 1) (r_out r)) in
-      Some ({| k_k := k_k s; k_n := k_n s; k_lv := lv'; k_cap := r_cap r; k_blk := Some b'; k_nxt := wb + 2 |},
-            e1 ++ e2 ++ e3 ++ e4)
+      let e4 := [MovD wb 0 b' free (r_items r); Dealloc wb tmp] in
+      Some (mk s (k_n s) free (r_out r) (r_cap r) (Some b') (wb + 2), e0 ++ e1 ++ e2 ++ e3 ++ e4)
   | _, _ => None
   end.
 
@@ -250,15 +236,12 @@ Definition kll_merge (s o : kll) : kll * list eff * outcome :=
   | None => (s, [], Thrown)
   | Some ob =>
     let final_n := k_n s + k_n o in
-    let '(s1, e1, ok) := merge_level0 (N.to_nat (level_size (k_lv o) (k_nl o) 0)) ob (lv0 o) s [] in
+    let '(s1, e1, ok) := merge_level0 (N.to_nat (hd 0 (k_pops o))) ob (k_free o) s [] in
     if negb ok then (s1, e1, Thrown) else
     if 2 <=? k_nl o then
       match merge_higher s1 o final_n with
       | None => (s1, e1, Abort)
-      | Some (s2, e2) =>
-        ({| k_k := k_k s2; k_n := final_n; k_lv := k_lv s2; k_cap := k_cap s2; k_blk := k_blk s2; k_nxt := k_nxt s2 |},
-         e1 ++ e2, Done)
+      | Some (s2, e2) => (mk s2 final_n (k_free s2) (k_pops s2) (k_cap s2) (k_blk s2) (k_nxt s2), e1 ++ e2, Done)
       end
-    else
-      ({| k_k := k_k s1; k_n := final_n; k_lv := k_lv s1; k_cap := k_cap s1; k_blk := k_blk s1; k_nxt := k_nxt s1 |}, e1, Done)
+    else (mk s1 final_n (k_free s1) (k_pops s1) (k_cap s1) (k_blk s1) (k_nxt s1), e1, Done)
   end.
